@@ -1,5 +1,5 @@
 """C20 -- collections stay aligned and own their droplets under any sequence of edits."""
-from contracts import collections as co, collmodel, emulsions as em, tracks as tk
+from contracts import collections as co, collections2 as c2, collmodel, emulsions as em, parallel as _pl, tracks as tk
 from pyvc.bounded import Bounded, ContractSampling
 
 LEVEL = "other"
@@ -8,15 +8,27 @@ LEVEL_TEXT = ("Per-operation heap contracts (pre/post over the whole view + fram
               "with unchanged state, argument aliasing a member), Emulsion.extend and remove_small (cut loops with inductive invariants and "
               "ghost index maps), remove_overlapping (C10), interface_width (partial-sum invariant), DropletTrack.append/duration, "
               "EmulsionTimeCourse.append/clear. 'Any sequence of operations' then follows by induction over the sequence (meta-argument). "
-              "Not yet under contract (bounded stand-in only): copy/slice/+ of emulsions, linked data, merge of members, size statistics, "
-              "bounding box, trajectories, nearest-time lookup - hence level 'other', not 'proof'.")
+              "Second batch (contracts/collections2.py): Emulsion.__init__ (empty emulsion with the declared dtype, ONE extend call with the caller's "
+              "flags, default copy=True), Emulsion.copy (filter radius > min_radius, default -1 keeps vanished droplets; every kept member a NEW object "
+              "with a NEW record holding equal values), + and slices of emulsions (new emulsion from the plain concatenation / list slice with the "
+              "DEFAULT copy behaviour, integer key: the member itself), total_droplet_volume (sum of V_d(radius_k) over all members), "
+              "get_size_statistics (which lists, which filter, which reductions; empty -> count 0 / NaN), EmulsionTimeCourse / DropletTrack "
+              "__getitem__ (same slice applied to members and times; integer key: the member), __len__, get_emulsion (index minimising |t_k - t| "
+              "modulo the assumed argmin contract; member paired by index), DropletTrack.time_overlaps, DropletTrackList.remove_short_tracks (same "
+              "reverse-filter invariant as remove_small). "
+              "Still bounded only: linked data (numpy views), merge of members through linked rows, bounding box (py-pde Cuboid sum), trajectories "
+              "(numpy array of attributes, gaussian filter) - hence level 'other', not 'proof'.")
 LEVEL_NOTE = ("A-FP; heap model (references, records, python lists as length + element map; numpy record copy = new storage with equal "
               "values and dtype; dtype equality by tag) validated only by the run-time monitors of the bounded tier; Emulsion(...) and "
-              "Emulsion.copy() are uninterpreted in the EmulsionTimeCourse.append contract; induction over operation sequences is a "
+              "Emulsion.copy() are uninterpreted in the EmulsionTimeCourse.append contract (their own contracts: EmulsionInit / EmulsionCopy); constructor calls "
+              "inside copy / + / slices are recorded and matched against the constructor's contract (modular); builtin sum / numpy mean, std, argmin assumed; "
+              "induction over operation sequences is a "
               "meta-argument; list.append/pop semantics")
 CONTRACTS = [c.ident for c in (co.DropletCopy(), co.EmulsionAppend(), co.EmulsionExtend(), co.RemoveSmall(), co.TrackAppend(),
                                co.TrackDuration(), co.ETCAppend(), co.ETCClear(), co.EmulsionInterfaceWidth(),
-                               em.RemoveOverlapping(), em.RemoveOverlappingIdempotent(), tk.TrackInit())]
+                               em.RemoveOverlapping(), em.RemoveOverlappingIdempotent(), tk.TrackInit(),
+                               c2.EmulsionInit(), c2.EmulsionCopy(), c2.EmulsionAdd(), c2.EmulsionGetitem(), c2.TotalVolume(), c2.SizeStatistics(),
+                               c2.ETCGetitem(), c2.ETCLen(), c2.ETCGetEmulsion(), c2.TrackGetitem(), c2.TrackTimeOverlaps(), c2.RemoveShortTracks())]
 LEMMAS = []
 BOUNDED = [collmodel.CollectionModel(), ContractSampling("collection-contracts-on-real-objects", CONTRACTS,
                             "each operation contract on 8 (quick) / 80 (thorough) seeded collections of 0-5 droplets incl. time 0, width 0/None, "
